@@ -676,6 +676,18 @@ fn op_new(cx: &mut Ctx, s: usize, hb: HB, cap: usize) {
             // the default-hasher constructors follow the same allocation policy
             let d: griddle::HashMap<K, V> = griddle::HashMap::with_capacity(cap);
             let ds: griddle::HashSet<K> = griddle::HashSet::with_capacity(cap);
+            // new() / with_hasher(): empty, nothing allocated
+            let n1: griddle::HashMap<K, V> = griddle::HashMap::new();
+            let n2: griddle::HashSet<K> = griddle::HashSet::new();
+            let n3: Map = Map::with_hasher(HB { kind: 0, id: 7 });
+            let n4: griddle::HashSet<K, HB> = griddle::HashSet::with_hasher(HB { kind: 0, id: 7 });
+            let n5: Map = Map::default();
+            if n1.capacity() != 0 || n2.capacity() != 0 || n3.capacity() != 0 || n4.capacity() != 0 || n5.capacity() != 0
+                || !n1.is_empty() || !n2.is_empty() || !n3.is_empty() || !n4.is_empty() || n1.len() + n2.len() + n3.len() + n4.len() + n5.len() != 0
+                || n3.hasher().id != 7 || n4.hasher().id != 7
+            {
+                vio("C10", "new() / with_hasher() / default() did not give an empty, unallocated collection with the given hasher".into());
+            }
             if d.capacity() != m.capacity() || ds.capacity() != m.capacity() || !d.is_empty() || !ds.is_empty() {
                 vio("C10", format!("with_capacity({}): capacity {} with a hasher, {} (map) / {} (set) with the default one", cap, m.capacity(), d.capacity(), ds.capacity()));
             }
